@@ -40,6 +40,10 @@ func TestCheck(t *testing.T) {
 	// last transaction; whatever is sent, the log stays one chain (and restarts, sweeps and a joining replica still work).
 	jobs = append(jobs, hist.Job{Name: "journal-forwarded-files", Cfg: hist.Config{PageSize: 512, Start: 3, R2Starts: "absent", Alphabet: []string{"fwd:ok", "fwd:overlap", "fwd:gap", "fwd:again", "tx:t1", "restartP", "sweep"},
 		Prelude: []string{"tx:a:t1", "tx:a:g1"}}, Depth: 3, Budget: 60 * time.Second})
+	// A real backup client against a service whose acknowledged high-water mark trails its data by one upload: retention
+	// goes by the mark the service reported, not by what the node has sent.
+	jobs = append(jobs, hist.Job{Name: "journal-lfsc-lagging-acknowledgement", Cfg: hist.Config{PageSize: 512, Start: 3, R2Starts: "absent", BackupKind: "lfsc-lag", Alphabet: []string{"tx:t1", "sync", "age", "sweep", "retain", "restartP"},
+		Prelude: []string{"sync", "tx:a:t1"}}, Depth: 3, Budget: 60 * time.Second})
 	if run.Thorough() {
 		jobs[0].Depth, jobs[0].Budget = 5, 20*time.Minute
 		jobs[1].Depth, jobs[1].Budget = 5, 20*time.Minute
